@@ -134,6 +134,9 @@ return tostring(a):sub(1, 6), pcall(function() return a() end), pcall(function()
 	{"C19", "io.lines-on-a-closed-default-input-raises-at-once", `io.input("$F") io.close(io.input()) local closed = pcall(io.lines) io.input("$F") local open = pcall(io.lines) return closed, open`, "false|true", nil},
 	{"C20", "empty-path-templates-are-skipped", `package.path = "./?.lua;;;./x/?.lua;" local ok, msg = pcall(require, "nosuchmod") package.path = "" local ok2, msg2 = pcall(require, "nosuchmod2") return ok, msg:find("no file ''", 1, true) == nil, select(2, msg:gsub("no file", "")), ok2, msg2:find("no file", 1, true) == nil`, "false|true|2|false|true", nil},
 	{"C17", "getinfo-of-a-level-lost-to-a-tail-call", `local function g() local i = debug.getinfo(2, "Sl") local j = debug.getinfo(3, "S") return i.currentline, i.what, i.source, j.what end local function f() return g() end local a, b, c, d = f() return a, b, c, d`, "-1|tail|=(tail call)|main", nil},
+	{"C17", "getlocal-of-a-level-lost-to-a-tail-call", `local mainvar = 5 local function g() local inner = 1 return (debug.getlocal(2, 1)), (debug.setlocal(2, 1, "changed")), (debug.getlocal(1, 1)), (debug.getlocal(3, 1)) end local function f() return g() end local a, b, c, d = f() return a, b, c, d, mainvar`, "nil|nil|inner|mainvar|5", nil},
+	{"C17", "getlocal-of-levels-lost-to-two-tail-calls", `local mainvar = 5 local function g() return (debug.getlocal(2, 1)), (debug.getlocal(3, 1)), (debug.setlocal(3, 1, "x")), (debug.getlocal(4, 1)) end local function f() local fl = 1 return g() end local function h() local hl = 2 return f() end local a, b, c, d = h() return a, b, c, d, mainvar`, "nil|nil|nil|mainvar|5", nil},
+	{"C17", "getlocal-above-a-level-lost-to-a-tail-call", `local function g() return (debug.getlocal(2, 1)), (debug.getlocal(3, 1)), (debug.getlocal(3, 2)) end local function f() return g() end local function outer() local o1, o2 = "a", "b" local r1, r2, r3 = f() return r1, r2, r3 end return outer()`, "nil|o1|o2", nil},
 	{"C15", "ldexp-with-an-exponent-beyond-int", `return math.ldexp(1, 2^63) == math.huge, math.ldexp(1, -2^63), math.ldexp(0, 2^63), math.ldexp(2^-1074, 1074), math.ldexp(2^1023, -2000) == 2^-977, math.ldexp(2^-1074, 2097) == 2^1023, math.ldexp(-1, 2^40) == -math.huge, math.ldexp(1, 1024) == math.huge, math.ldexp(1, 1023) == 2^1023`, "true|0|0|1|true|true|true|true|true", nil},
 	{"C14", "gsub-returns-a-string-also-without-a-match", `return type((string.gsub(123, "x", "y"))), (string.gsub(123, "x", "y")), select(2, string.gsub(123, "x", "y")), type((string.gsub(123, "2", "y"))), (string.gsub(12.5, "%.", ","))`, "string|123|0|string|12,5", nil},
 	// seventh batch
